@@ -46,6 +46,7 @@ structure WSt where
   buf : List Op        -- WriteBuffer.entries
   bufSize : Nat        -- WriteBuffer.currentSize
   bs : Nat             -- maxBlockSize
+  dirty : Bool := false  -- (repaired writer) a failed block could not be cut off yet
   deriving DecidableEq, Repr
 
 def createOps (p : Path) (nl : Nat) : List FsOp :=
@@ -68,7 +69,7 @@ def openWriter (c : Cfg) (d : Disk) (p : Path) (nlNew bs : Nat) : Option (WSt ×
   | none => some fresh
   | some f =>
     match headerOf f with
-    | none => if c.truncatesTornTail then some fresh else none
+    | none => if c.truncatesTornTail && f.length < 64 then some fresh else none   -- ≥ 64 bytes with a bad header: an error
     | some nl =>
       if c.truncatesTornTail then
         match validLen f with
